@@ -451,7 +451,11 @@ class WSGITask(Task):
 
         can_close_app_iter = True
         try:
-            if isinstance(app_iter, ReadOnlyFileBasedBuffer) and not self.wrote_header:
+            if (
+                isinstance(app_iter, ReadOnlyFileBasedBuffer)
+                and not self.wrote_header
+                and self.has_body
+            ):
                 cl = self.content_length
                 size = app_iter.prepare(cl)
                 if size:
